@@ -479,6 +479,10 @@ def _expr_run(res: CheckResult, layouts: bool) -> None:
         st = E.check_cases(res, EXPR_CLAUSES, cases, viol, py, ic)
         if st["violated"] < 100 and not res.violations:
             raise MachineryError("ICExpr family {} is vacuous".format(name))
+        if st.get("complete_claimed", 0) < 50 and not res.violations and "bound to None" not in name:
+            raise MachineryError("ICExpr family {}: the completeness clause is vacuous (its antecedent - a violated "
+                                 "condition none of whose names is bound to None - holds in {} cases)".format(
+                                     name, st.get("complete_claimed", 0)))
         res.traces += st["cases"]
         res.evaluations += st["lines_compared"]
         if not res.violations:
